@@ -7,8 +7,22 @@ def main(argv):
     if argv and argv[0] == "verify":
         verbose = "-v" in argv
         names = [a for a in argv[1:] if not a.startswith("-")]
+        jobs = 1
+        for a in argv:
+            if a.startswith("-j"):
+                jobs = int(a[2:])
         for n in names:
-            res = driver.verify_lemma(n) if "/" in n else driver.verify_function(n)
+            if jobs > 1 and "/" not in n:
+                import concurrent.futures as cf, multiprocessing as mp
+                from . import check
+                with cf.ProcessPoolExecutor(max_workers=jobs, mp_context=mp.get_context("fork")) as ex:
+                    parts = list(ex.map(check._task, [("func", n, None, (k, jobs)) for k in range(jobs)]))
+                res = parts[0]
+                for pr in parts[1:]:
+                    res["obligations"] += pr["obligations"]
+                res["seconds"] = max(pr.get("seconds", 0) for pr in parts)
+            else:
+                res = driver.verify_lemma(n) if "/" in n else driver.verify_function(n)
             driver.print_result(res, verbose)
         return 0
     if argv and argv[0] == "check":
